@@ -20,7 +20,8 @@ Record obs := Obs {
 }.
 
 Inductive expect :=
-| ETx (ok : bool) (dbal : Z) (frozen_set : list addr)   (* code = 0 ; balance change + fee ; frozen validators *)
+| ETx (ok : bool) (dbal : Z) (frozen_set : list addr) (convicted : list addr)
+    (* code = 0 ; balance change + fee ; frozen validators ; validators with a GUILTY verdict and no successful RELEASE since *)
 | EBlock (o : obs)
 | ENone.
 
@@ -157,6 +158,13 @@ Definition op_frozen (o : op) : bool :=
   | _ => false
   end.
 
+(* between a GUILTY verdict and the next successful RELEASE of that validator no UNSTAKE / WITHDRAW naming it succeeds *)
+Definition names_convicted (o : op) (conv : list addr) : bool :=
+  match o with
+  | OUnstake v _ _ _ _ _ _ _ _ | OWithdraw v _ _ _ _ => existsb (Pos.eqb v) conv
+  | _ => false
+  end.
+
 Fixpoint go (c i : Z) (s : state) (g : ghosts) (a : blockacc) (l : list (op * expect)) (r : results) : results :=
   match l with
   | [] => r
@@ -168,12 +176,13 @@ Fixpoint go (c i : Z) (s : state) (g : ghosts) (a : blockacc) (l : list (op * ex
     let r := add_trg c i 4 (trig_penalty_not_atomic s o) r in
     let r := add_trg c i 6 (trig_postponed_blocked s o) r in
     match e with
-    | ETx ok_obs dbal fset =>
+    | ETx ok_obs dbal fset conv =>
       let r := add_trg c i 5 (withdraw_sidestep s o fset) r in
       let r := add_mm c i 1 (eqb ok ok_obs) r in
       let r := add_mm c i 2 (bal_delta o ok =? dbal) r in
       let r := add_mon c i 16 (negb (withdraw_sidestep s o fset && ok_obs)) r in
       let r := add_mon c i 20 (negb (op_frozen o && ok_obs)) r in
+      let r := add_mon c i 22 (negb (names_convicted o conv && ok_obs)) r in
       go c (i + 1) s' (ghost_step g o ok_obs dbal) (acc_step a o ok_obs) l' r
     | EBlock ob =>
       let r := add_mm c i 3 (cmp_zmap (eff s') (o_eff ob)) r in
